@@ -13,6 +13,11 @@ directions, definitions inside excluded blocks, separator characters that do not
 names defined twice, the else branches of TYPE_CHECKING / __main__ blocks and the two marker flags.  C08.read interprets
 read_module_ast over a representative file system (plain, UTF-8 BOM, encoding declaration).  Arbitrary modules and the converse clause (every executable line outside
 excluded code is a goal) are not decided.
+Further clauses (added later): C08.pipeline interprets from_path + get_scope + should_be_covered /
+should_cover_line over small modules x configurations (only-cover / no-cover nesting, definitions in excluded
+blocks, separators that do not end a line, async for, names defined twice, else branches of TYPE_CHECKING /
+__main__, marker flags); C08.read interprets read_module_ast over a representative file system (BOM, encoding
+declaration).
 """
 
 from __future__ import annotations
